@@ -472,6 +472,16 @@ static void generate(bool thorough, uint64_t seed) {
                 if (gg == 1) emit_case("sinvmod", K, {sb, sm});
             }
         }
+        // bezout_mod on pairs that are NOT coprime and on the boundary pairs (1, 1), (1, d), (c, 1), c = d, c | d, d | c, 2^bits - 1
+        {
+            Z f = g.val(K) % pow2(nb / 2) + 2, p = g.val(K) % pow2(nb / 2 - 1) + 1, q = g.val(K) % pow2(nb / 2 - 1) + 1;
+            Z r1 = g.nonzero(K);
+            emit_case("bezout", K, {p * f, q * f});
+            emit_case("bezout", K, {Z(1), Z(1)}); emit_case("bezout", K, {Z(1), r1}); emit_case("bezout", K, {r1, Z(1)});
+            emit_case("bezout", K, {r1, r1}); emit_case("bezout", K, {p, p * f}); emit_case("bezout", K, {p * f, p});
+            emit_case("bezout", K, {Z(M - 1), r1}); emit_case("bezout", K, {r1, Z(M - 1)}); emit_case("bezout", K, {Z(M - 1), Z(M - 2)});
+            emit_case("bezout", K, {Z(2), Z(M - 1)}); emit_case("bezout", K, {pow2(nb - 1), Z(M - 1)});
+        }
         for (unsigned i = 0; i < std::max(K >= 11 ? 1u : 2u, (nslow * 2) >> (2 * sh)); i++) {
             Z m = (i % 3 == 0) ? Z(1 + g.rng.below(3)) : g.nonzero(K);
             Z e = (i % 4 == 0) ? Z((long)g.rng.below(3)) : g.val(K);
